@@ -45,8 +45,8 @@ func c06(c *core.Ctx, r *core.Report) {
 
 	var failedTest *ssa.If
 	rule(r, "C06.R1", "in Run.Do, Setup is called exactly once on every path and before the failure test; run() is reachable only when setup did not fail; the failed branch records an error and returns without running iterations", func() {
-		setup := an.Callee(setupCall)
-		exits := an.PathCount(do, an.CallWeight(func(_ ssa.CallInstruction, t *ssa.Function) bool { return t == setup }, 0))
+		setup, _, _ := setupRunner(c)
+		exits := an.PathCount(do, an.CallWeight(func(_ ssa.CallInstruction, t *ssa.Function) bool { return t == setup }, flatDepth))
 		tot, ok := an.Total(exits, false)
 		r.Check(ok && tot.Lo == 1 && tot.Hi == 1, core.FuncName(do)+"#setup-once", an.Pos(c, setupCall), "Setup executed exactly once on every path", "Setup executed "+tot.String()+" times")
 		// failure test: If on a call that (through getters) returns T.Failed() of the setup handle
